@@ -112,6 +112,21 @@ class Ctx:
         self.call_stack = []     # DSL calls in progress: ['bf', rel] / ['sb', name, args_wire, kwargs_wire]
         self.fault_call = None   # the call stack at the moment an injected fault fired
         self.started_targets = {}  # targets whose function was entered (so a file there is ours to remove)
+        self.spell_rng = None      # C07: spell every path handed to the library differently
+        self.spellings = {}
+
+    def set_spelling(self, seed, step):
+        if seed is not None:
+            import random
+            self.spell_rng = random.Random('%s:%s' % (seed, step))
+
+    def spell(self, p):
+        """another spelling of the absolute normalised path `p` (same file for `os.path.abspath`)"""
+        if self.spell_rng is None:
+            return p
+        q, kind = spell_path(self.spell_rng, p)
+        self.spellings[kind] = self.spellings.get(kind, 0) + 1
+        return q
 
     def P(self, rel):
         return os.path.join(self.root, rel) if rel else self.root
@@ -133,8 +148,51 @@ class Ctx:
         return self.FC.METADATA if c == 'M' else self.FC.HASH
 
 
+class FsPath:
+    """a path-like object (os.PathLike protocol) that is neither str nor pathlib"""
+
+    def __init__(self, p):
+        self.p = p
+
+    def __fspath__(self):
+        return self.p
+
+
+SPELLINGS = ['plain', 'plain', 'bytes', 'pathlib', 'pathlike', 'pathlike_bytes', 'dslash', 'dot', 'dotdot', 'trailing', 'relative',
+             'relative_dotdot']
+
+
+def spell_path(rng, p):
+    kind = rng.choice(SPELLINGS)
+    comps = p.split(os.sep)   # ['', 'a', 'b', ...]
+    q = p
+    if kind == 'bytes':
+        q = os.fsencode(p)
+    elif kind == 'pathlib':
+        import pathlib
+        q = pathlib.PurePosixPath(p) if os.sep == '/' else pathlib.Path(p)
+    elif kind == 'pathlike':
+        q = FsPath(p)
+    elif kind == 'pathlike_bytes':
+        q = FsPath(os.fsencode(p))
+    elif kind in ('dslash', 'dot', 'dotdot') and len(comps) > 2:
+        i = rng.randrange(2, len(comps))      # never at the very front: a leading '//' is a different root in POSIX
+        ins = {'dslash': [''], 'dot': ['.'], 'dotdot': ['zz', '..']}[kind]
+        q = os.sep.join(comps[:i] + ins + comps[i:])
+    elif kind == 'trailing':
+        q = p + os.sep
+    elif kind == 'relative':
+        q = os.path.relpath(p, os.getcwd())
+    elif kind == 'relative_dotdot':
+        q = os.path.join(os.path.relpath(p, os.getcwd()), 'zz', '..')
+    else:
+        kind = 'plain'
+    assert os.path.abspath(os.fsdecode(q)) == p, (kind, q, p)
+    return q, kind
+
+
 def do_query(ctx, b, kind, rel, extra):
-    p = ctx.P(rel)
+    p = ctx.spell(ctx.P(rel))
     if kind == 'is_file':
         return b.is_file(p)
     if kind == 'is_dir':
@@ -320,7 +378,7 @@ def exec_stmts(ctx, stmts, b, target, acc):
                 call_args = [dec_pyval(arg), dec_pyval(kw)]
                 try:
                     r = b.build_file_with_comparison(
-                        tgt, ctx.cmp(cmp_), name, body, call_args[0], **call_args[1])
+                        ctx.spell(tgt), ctx.cmp(cmp_), name, body, call_args[0], **call_args[1])
                 finally:
                     del ctx.call_stack[depth - 1:]
                     if ctx.mutate:
